@@ -42,30 +42,83 @@ for _i in range(1, 21):
 
 
 # ---------------------------------------------------------------------------------------------------------------
-_p("C07", "other", _TECH,
-   "Deductive: every function of linalg.py and transformation.py (and the clifford.py functions listed in the evidence) is "
-   "verified against a strongest-postcondition sidecar contract for symbolic sizes/indices (per-row rule, frame, object "
-   "identity), loops by inductive invariants, callers against callee contracts; the per-row rules are proved equal to "
-   "conjugation by the textbook matrices on the complete Pauli domain (L3, exact). Bounded (never counted as proved): "
-   "run-time contract monitors over the 11,520 two-qubit tableaux and random walks up to n=200.",
-   "Trusted: T-stab, T-meas (DESIGN 4.3); assumed numpy API contracts (npapi, listed per run); Python ints = SMT Int; "
-   "functions of clifford.py not yet under contract are covered only by the bounded stand-in (listed in the evidence).",
-   "DESIGN.md §5 C07",
-   "Mixed level: per-function obligations listed in obligation_table are discharged for all inputs (unbounded n); clauses "
-   "without a discharged obligation are decided only by the labelled bounded stand-ins in coverage.bounded.",
-   rule="bounded part: see coverage.bounded[*].bound; a case is non-trivial when the tableau/operation is not the identity case")
+_NOTE = ("Trusted: the [T] theorems and [A] library contracts listed in the evidence (trusted_base), S1-S8 of DESIGN.md §3; "
+         "clauses marked [B-only] there are decided by the bounded stand-in only and are never counted as proved.")
+_EXPL = ("Mixed level. obligation_table lists every obligation generated from /repo's current source (pyvc symbolic execution of the "
+         "real AST under sidecar contracts -> z3/cvc5; or exact evaluation over a complete finite domain, kind F) - those are "
+         "discharged for all inputs. coverage.bounded lists the run-time contract monitors with their stated bounds - bounded, "
+         "never counted as proved. Known defects that are recorded, not repaired, are matched by exact (item, input) / obligation "
+         "name from KNOWN_FINDINGS.json.")
+_RULE = "bounded part: each item's `bound` says how inputs are enumerated/sampled; an input is non-trivial per the item's own rule (distinct JSON inputs that exercise the clause, counted by the harness)"
 
-
-_p("C01", "other", _TECH,
-   "Deductive: for every accepted operation class x register-type mix x measurement setting, the per-operation dispatch of "
-   "BOTH compilers is proved (symbolic register numbers) to perform exactly the textbook effect trace on the state "
-   "representation (photons indexed before emitters, X iff outcome 1, reset after measure-CNOT-reset, outcome written to the "
-   "classical register); Stabilizer wrapper methods -> tableau functions -> per-row rules -> textbook matrices (L3) are "
-   "proved for all sizes. Bounded: exhaustive short circuits and random long circuits against an independent state-vector "
-   "semantics, both backends, all outcome branches.",
-   "Trusted: T-stab, T-meas, T-commute; dm matrix builders and DensityMatrix methods are abstract tokens in the proof and "
-   "are decided by the bounded stand-in only; the compile loop itself is covered by the bounded stand-in only; S3 floats.",
-   "DESIGN.md §5 C01",
-   "Mixed level: dispatch/wrapper/tableau obligations discharged for all inputs; dm operator algebra and the compile loop "
-   "are bounded-only (labelled).",
-   rule="bounded part: see coverage.bounded[*].bound")
+_D = {
+ "C01": "Deductive: per-operation dispatch of BOTH compilers for every accepted operation class x register-type mix x measurement setting "
+        "(symbolic register numbers: textbook effect trace, photons indexed before emitters, reset after measure-CNOT-reset, classical "
+        "record), CompilerBase.compile by trace induction over an abstract sequence (incl. noise placement and op.noise restoration), "
+        "Stabilizer wrapper methods, tableau functions (C07 contracts) and L3 conjugation tables. Bounded: exhaustive short circuits and "
+        "random long circuits against an independent state-vector semantics, both backends, all outcome branches, initial states.",
+ "C02": "Deductive: _change_pauli_type for symbolic tableaux/indices (gate contracts, returned inverse classes, wanted Pauli reached), its "
+        "wrapper-inverts-applied-gates table and the measure-CNOT-reset / time-reversed-measurement identity L_meas (exact). Bounded: the "
+        "solver on all graphs n<=4 (n<=5 thorough) in three input representations x two compilers judged by an independent state vector "
+        "over every combination of measurement outcomes; vertex orders, generating sets, large graphs.",
+ "C03": "Deductive: leftmost_nontrivial_index, height_func_list (two nested loop invariants, counting comprehension), height_dict, "
+        "height_max, determine_n_emitters, frame/pivot arithmetic of rref and its helpers. Bounded: all stabilizer states n<=3 x generating "
+        "sets against state-vector entropy and GF(2) rank, graphs, solver emitter budget and one emission per photon.",
+ "C04": "Deductive: the wire-view effect of the only three edits the mutation moves use (insert_at = splice, remove_op = unsplice; C12 layers "
+        "1+2) and static frame/shape contracts of every move on the real AST (three-valued: unrecognised shape = undecided). Bounded: "
+        "the emission-constraint invariant after every move in exhaustive short and long random move histories, initialisation, hybrid "
+        "populations, deterministic and alternate-target solver outputs.",
+ "C05": "Deductive: row_sum (loop invariant, spec function), g_function + L3 table, tab_row_swap, tab_row_sum, pauli finders (filter theory), "
+        "insert_qubit, StabilizerTableau.__eq__, canonical_form frame, inner_product/fidelity/Stabilizer.__eq__ dispatch traces. Bounded: "
+        "all ordered pairs of states n<=2 in all presentations, sampled n<=8, against state-vector overlaps.",
+ "C06": "Deductive: CompilerBase.compile for both compilers with noise on/off by trace induction: switchability (noise off or NoNoise -> exactly "
+        "the noiseless call), placement before/after for one-qubit and all four controlled combinations incl. the noise carried at call "
+        "time, replacement noise, op.noise restored; depolarizing weight lemma. Bounded: per-channel oracles, PSD/trace, backend agreement, "
+        "zero strength / empty map / switched off.",
+ "C07": "Deductive: every function of linalg.py and transformation.py, clifford.py z_measurement_gate (relational contract, sequence-loop "
+        "invariants, sum lemma), reset_x/y/z, swap_gate, insert_qubit, add_qubit, create_n_ket0/ket1, for symbolic sizes/indices "
+        "(per-row rule, frame, object identity); Valid => Valid for all gates and the measurement update (sum lemmas by induction, abstract "
+        "Aaronson-Gottesman step); L3 conjugation tables (exact). Bounded: all 11,520 two-qubit tableaux x operations, walks to n=200.",
+ "C08": "Deductive: graph -> stabilizer constructions (X=I, Z=adjacency, signs 0), stabilizer_to_density dispatch, convert_representation "
+        "dispatch table over the 9 ordered pairs (right converter, right payload, right wrapper class). Bounded: all graphs n<=4/5 through "
+        "all conversions, state_to_graph gate lists applied by an independent simulator.",
+ "C09": "Deductive: local_comp_graph (adj' = adj xor neighbour pairs, involution; matrix products by a sum-support lemma), "
+        "Graph.local_complementation, _is_valid_clifford, _coeff_maker, local_clifford_ops table (exact). Bounded: all ordered pairs n<=4 "
+        "(n<=5 thorough) against a BFS orbit oracle, returned Cliffords and complementation sequences applied and compared.",
+ "C10": "Deductive: the default setting is dispatched (static), the de-duplication region of solve() for an arbitrary equivalence relation "
+        "(sizes <=4/5): one representative per class, none lost, order kept. Bounded: every result entry over all connected graphs n<=4 x "
+        "lc methods x settings judged by state vector over all measurement outcomes and a BFS orbit oracle.",
+ "C11": "Deductive: run_circuit (every gate name, reverse handling, general list by trace induction), inverse_circuit clause (a) trace "
+        "consistency in all seven blocks (lockstep loop rule), clifford_from_stabilizer dispatch. Clause (b) (result is |0..0>) is known "
+        "FALSE for some states n>=5 (known finding) and is bounded-only. Bounded: all states n<=3 x generating sets, sampled up to n=30.",
+ "C12": "Deductive: add / insert_at / remove_op / _add_reg_if_absent executed on symbolic graph fragments for every operation arity and "
+        "register-type mix (edge multiset, node set, node_dict/edge_dict, register counts, id counter); wire lemmas: splice/unsplice keep "
+        "every wire a single path in order, append/remove keep the graph acyclic. Bounded: exhaustive edit histories <=3 and long random "
+        "histories recomputing the invariant from scratch.",
+ "C13": "Deductive: frame obligations from the interpreter's write log for every metric evaluate, compile's op.noise restoration, "
+        "_noisy_gates/assign_noise (fresh ops, originals untouched) by induction over an abstract sequence, solver constructors. Bounded: "
+        "rewrites preserve the compiled state, frames around every call and call histories <=3.",
+ "C14": "Deductive: every *_info usage statement for symbolic registers (token strings), wrapper definitions evaluated exactly with openQASM 2 "
+        "semantics, to_json / from_json round trip per operation kind x register mix, to_openqasm emission loop by induction, JSON name "
+        "tables (exact). The regex text parser from_openqasm is bounded-only. Bounded: textual round trips incl. multi-digit registers, an "
+        "independent openQASM-2 reader, determinism across processes.",
+ "C15": "Deductive: finite class table for direct()'s node test and its structural shape (static, three-valued). Bounded: all pairs of "
+        "circuits <=2 ops for all comparison methods judged by compiled states on every outcome branch, redundancy filters.",
+ "C16": "Deductive: _perm2matrix (loop invariant), relabel proved literally as result[p(u),p(v)] = A[u,v] (sum-support lemma by induction), "
+        "_equal_graphs, check_isomorphism, get_relabel_map identity branch. Bounded: all graphs n<=5 x all permutations, iso_finder option "
+        "grid, every orbit explorer against a BFS orbit oracle.",
+ "C17": "Deductive: partial_trace subscript strings for every ndim<=8 and every kept subset (exact), Infidelity / TraceDistance dispatch over "
+        "all representation pairs (right function, copy converted, value 1-F). Spectral float code (Uhlmann branch, trace distance, "
+        "sqrtm) is outside deduction: bounded against independent oracles incl. complex and mixed states.",
+ "C18": "Deductive: constructors define every attribute evaluate reads (all 12 metric classes, default arguments), evaluate of the five counting "
+        "metrics as effect traces (value = penalty(definition), logging, frame), unitary label list (exact over 2^8 patterns). Bounded: "
+        "every metric vs an independent definition on enumerated and random circuits.",
+ "C19": "Deductive: update_hof over real-valued scores for hall-of-fame sizes <=3 (length, entries are copies, population untouched; the "
+        "sortedness / best-not-worse clauses are REFUTED within the isclose tolerance - known finding), tournament_selection. Seed "
+        "reproducibility is a 2-safety property: bounded only (same process, across hash seeds).",
+ "C20": "Deductive: the finite group facts by exact arithmetic over Q(i,sqrt2) on graphiq's own matrices (24 elements, inequivalent, closed, "
+        "G192 invariant => unbounded words, lookup on all 192 matrices, rejection of non-Cliffords, gap lemma), unwrap order and "
+        "local_clifford_to_matrix_map loop by pyvc, wrapper export order. Bounded: words up to length 5/7, 24 wrappers x both backends.",
+}
+for _pid, _txt in _D.items():
+    _p(_pid, "other", _TECH, _txt, _NOTE, f"DESIGN.md §5 {_pid}", _EXPL, rule=_RULE)
